@@ -48,6 +48,12 @@ RULE = (
     "matrix the chain ends with. Oracle: each replacement copy carries the replacement for the replaced members and the "
     "object's own for all others, the object itself is unchanged, every later derivation is judged by label against the "
     "source like any other link; each branch is also replayed by the model (chain up to the object + branch). "
+    "A fixed stream of matrices with MIXED-TYPE LABELS (whole numbers >= 1000 next to strings on at least one axis; the other "
+    "axis both kinds / only numbers / only strings; one in five with a string spelled like one of its number labels), built "
+    "half with DecisionMatrix(data_df, objectives, weights) on a DataFrame and half through mkdm (labels as an object array / "
+    "a pandas Index): nothing or a selection that STILL mixes both kinds, then copy() / mkdm(**to_dict()) once or twice, then "
+    "further selections by the same labels and again a copy / round trip (one case in five an ordinary random chain); labels "
+    "are observed and compared WITH THEIR TYPES (gen.lab: 2019 is not '2019') on every link, the model sees the same text form. "
     "Thorough adds ALL chains of length <= 2 over a fixed selector alphabet on a 3x3 matrix. Alias stream: every alias of "
     "the code, upper/lower/title variants of the string ones, and non-aliases. Non-trivial: the chain changes the order or "
     "the set of criteria or alternatives at least once (or an alias case); distinct by case hash."
@@ -56,8 +62,12 @@ ASSUMPTIONS = [
     "integer cells are below 2^53 in magnitude: a row Series (loc[a]) and to_dict()/copy() of a matrix with mixed dtypes go "
     "through float64, so larger int64 values are rounded by the real code (observed: 9007199254740993 -> ...992); the "
     "rational model cannot exhibit this",
-    "labels are unique strings; a request that names a label twice is outside the property ('subset') and only generated as "
-    "the last link (the code accepts it and builds a matrix with duplicated labels)",
+    "labels are unique strings or whole numbers >= 1000 (never a position); a request that names a label twice is outside the "
+    "property ('subset') and only generated as the last link (the code accepts it and builds a matrix with duplicated labels)",
+    "mixed-type labels reach mkdm in a container that keeps their types (object array, pandas Index): a plain LIST of mixed "
+    "labels is turned into strings by numpy when the matrix is CONSTRUCTED (np.asarray), which is not a derivation; on axes "
+    "with number labels, label slices with a missing endpoint and dm[a:b] with only whole-number endpoints (read as positions "
+    "by pandas) are not generated; the index of to_dataframe() (alternatives stacked under 'objectives'/'weights') is compared as text",
     "label slices with a step are not generated; a label slice whose endpoint is missing is only checked by label "
     "(pandas answers by insertion point on a monotonic index, KeyError otherwise; the model mirrors both)",
     "pandas selection semantics is external: modelled in Lean, validated here (exhaustively on 3x3 in the thorough tier)",
@@ -404,6 +414,30 @@ def has_dup(alts, crits):
     return len(set(alts)) != len(alts) or len(set(crits)) != len(crits)
 
 
+def _plain(labels):
+    return all(isinstance(x, str) for x in labels)
+
+
+def _is_mixed(labels):
+    """both kinds of labels (strings and whole numbers) on one axis"""
+    return any(isinstance(x, str) for x in labels) and any(not isinstance(x, str) for x in labels)
+
+
+def _step_in_domain(alts, crits, step, st):
+    """on axes that carry whole-number labels two request forms have no label meaning in pandas and are not generated:
+    a label slice with a MISSING endpoint (insertion point by comparison: int vs str does not compare) and `dm[a:b]` whose
+    endpoints are all whole numbers (pandas reads such a slice as POSITIONS).  Always True on all-string labels."""
+    if _plain(alts) and _plain(crits):
+        return True
+    if st == "unknown":
+        return False
+    if step["kind"] == "getitem" and "rowsL" in step["sel"]:
+        v = step["sel"]["rowsL"]
+        if any(x is not None for x in v) and not any(isinstance(x, str) for x in v):
+            return False
+    return True
+
+
 def gen_chain(rng, dm, length):
     alts, crits = list(dm["alternatives"]), list(dm["criteria"])
     chain = []
@@ -413,6 +447,12 @@ def gen_chain(rng, dm, length):
             step = gen_step(rng, alts, crits, last)
             st, form, a, c = requested(alts, crits, step)
             ends = st != "ok" or form == "scalar" or has_dup(a, c)
+            if not _step_in_domain(alts, crits, step, st):
+                # only on axes with whole-number labels (never taken on all-string labels): draw again; a plain copy()
+                # stands in if every draw is out of the domain
+                step, ends = {"kind": "copy"}, False
+                st, form, a, c = requested(alts, crits, step)
+                continue
             if not ends or last:
                 break
         chain.append(step)
@@ -761,6 +801,88 @@ def history_cases(rng, n):
     return out
 
 
+# ------------------------------------------------------------------------------------------ mixed-type labels
+# Labels are whatever the user's DataFrame carries: years and ids (whole numbers) next to names (strings) on one axis.
+# A derived matrix must list the requested labels THEMSELVES: 2019 is not "2019".
+
+
+def _mixify(rng, dm):
+    """part of the labels of `dm` replaced by whole numbers >= 1000 (never a position): at least one axis carries BOTH
+    kinds, the other one both kinds / only numbers / only strings; a label shared by both axes stays shared; one matrix in
+    five also has a STRING label spelled like one of its number labels ("2019" next to 2019)"""
+    alts, crits = list(dm["alternatives"]), list(dm["criteria"])
+    for attempt in range(20):
+        pool = G.int_labels(rng, len(alts) + len(crits) + 1)
+        mapping = {}
+        wide = [ax for ax, labs in (("a", alts), ("c", crits)) if len(labs) >= 2]
+        main = rng.choice(wide)
+        for ax, labs in (("a", alts), ("c", crits)):
+            k = len(labs)
+            mode = "mixed" if ax == main else rng.choice(["mixed", "mixed", "int", "str"] if k >= 2 else ["int", "str"])
+            idx = rng.sample(range(k), rng.randint(1, k - 1)) if mode == "mixed" else list(range(k)) if mode == "int" else []
+            for i in idx:
+                if labs[i] not in mapping:
+                    mapping[labs[i]] = pool.pop()
+        if rng.random() < 0.2:
+            strs = [x for x in alts + crits if x not in mapping]
+            if strs and mapping:
+                twin = str(rng.choice(sorted(mapping.values())))
+                if twin not in alts + crits:
+                    mapping[rng.choice(strs)] = twin
+        a2, c2 = [mapping.get(x, x) for x in alts], [mapping.get(x, x) for x in crits]
+        if (_is_mixed(a2) or _is_mixed(c2)) and not has_dup(a2, c2):
+            break
+    else:  # (every draw defeated by shared labels) number the first label of an axis with two labels or more, wherever it is
+        first = (alts if len(alts) >= 2 else crits)[0]
+        a2, c2 = [1000 if x == first else x for x in alts], [1000 if x == first else x for x in crits]
+    out = dict(dm)
+    out["alternatives"], out["criteria"] = a2, c2
+    return out
+
+
+MIXED_BUILDS = ["ctor", "mkdm-array", "ctor", "mkdm-index"]
+
+
+def mixed_cases(rng, n):
+    """matrices with MIXED-type labels on an axis, built with the DecisionMatrix(data_df, objectives, weights) constructor
+    from a DataFrame or through mkdm (labels given as an object array / a pandas Index, which keep their types), then:
+    nothing or a selection (1-2 links) that STILL mixes both kinds on an axis, then copy() / mkdm(**to_dict()) (once or
+    twice), then mostly further selections (by the same labels) and again a copy / round trip; one case in five is an
+    ordinary random chain on such a matrix"""
+    out = []
+    for i in range(n):
+        while True:
+            dm = dm_case(rng, n=rng.randint(2, 6) if rng.random() < 0.85 else None,
+                         shared_labels=rng.choice(["some", "all"]) if rng.random() < 0.125 else False)
+            if max(len(dm["alternatives"]), len(dm["criteria"])) >= 2:  # (a 1x1 matrix has no axis to mix)
+                break
+        dm = _mixify(rng, dm)
+        dm["build"] = MIXED_BUILDS[i % len(MIXED_BUILDS)]
+        alts, crits = dm["alternatives"], dm["criteria"]
+        shape = i % 5
+        if shape == 4:
+            chain = gen_chain(rng, dm, rng.randint(1, 6))
+        else:
+            pre, a, c = [], list(alts), list(crits)
+            if shape:  # a selection that still mixes both kinds on an axis
+                for _ in range(12):
+                    p = gen_chain(rng, dm, rng.randint(1, 2))
+                    ok, a2, c2 = _walk(alts, crits, p)
+                    if ok and a2 and c2 and (_is_mixed(a2) or _is_mixed(c2)):
+                        pre, a, c = p, a2, c2
+                        break
+            chain = pre + [{"kind": rng.choice(["copy", "roundtrip"])}]
+            if rng.random() < 0.3:
+                chain.append({"kind": rng.choice(["copy", "roundtrip"])})
+            if rng.random() < 0.75:
+                more = gen_chain(rng, {"alternatives": a, "criteria": c}, rng.randint(1, 2))
+                chain += more
+                if _walk(a, c, more)[0] and rng.random() < 0.5:
+                    chain.append({"kind": rng.choice(["copy", "roundtrip"])})
+        out.append({"kind": "chain", "dm": dm, "chain": chain, "mixed": True})
+    return out
+
+
 def gen(ctx):
     rng = ctx.rng
     cases = alias_cases()
@@ -772,6 +894,7 @@ def gen(ctx):
     cases += row_cases(rng, ctx.n(150, 1000))
     cases += zero_weight_cases(rng, ctx.n(150, 1000))
     cases += history_cases(rng, ctx.n(300, 2500))  # a fixed share of every run, not a branch of the random stream
+    cases += mixed_cases(rng, ctx.n(300, 2500))  # mixed-type labels: a fixed share of every run as well
     if ctx.thorough:
         cases += exhaustive_cases()
     return cases
@@ -784,6 +907,7 @@ def search_gen(ctx):
         dm = dm_case(rng, m=rng.randint(1, 4), n=rng.randint(1, 4), shared_labels=rng.choice(["some", "all"]) if rng.random() < 0.2 else False)
         cases.append({"kind": "chain", "dm": dm, "chain": gen_chain(rng, dm, rng.randint(1, 2))})
     cases += history_cases(rng, 600)
+    cases += mixed_cases(rng, 400)
     return cases
 
 
@@ -792,9 +916,42 @@ def search_gen(ctx):
 NP_DT = {"int": np.int64, "float": np.float64}
 
 
+def _labels_arg(labels, how):
+    """labels as mkdm is given them: a list of strings as a list; anything else as a container that keeps the type of
+    every label (an object array, a pandas Index) -- a plain list of mixed labels is turned into strings by numpy at
+    construction, before there is any matrix to derive from"""
+    import pandas as pd
+
+    if _plain(labels):
+        return list(labels)
+    if how == "mkdm-index":
+        return pd.Index(list(labels))
+    arr = np.empty(len(labels), dtype=object)
+    arr[:] = list(labels)
+    return arr
+
+
 def build_dm(d):
     import skcriteria as skc
 
+    how = d.get("build")
+    if how == "ctor":  # DecisionMatrix(data_df, objectives, weights) on the user's own DataFrame
+        import pandas as pd
+
+        crits = list(d["criteria"])
+        df = pd.DataFrame({j: [row[j] for row in d["matrix"]] for j in range(len(crits))}, index=pd.Index(list(d["alternatives"])))
+        df = df.astype({j: NP_DT[t] for j, t in enumerate(d["dtypes"])})
+        df.columns = pd.Index(crits)
+        return skc.DecisionMatrix(df, [py_alias(k) for k in d["objectives"]], list(d["weights"]))
+    if how in ("mkdm-array", "mkdm-index"):
+        return skc.mkdm(
+            d["matrix"],
+            [py_alias(k) for k in d["objectives"]],
+            weights=list(d["weights"]),
+            alternatives=_labels_arg(d["alternatives"], how),
+            criteria=_labels_arg(d["criteria"], how),
+            dtypes=[NP_DT[t] for t in d["dtypes"]],
+        )
     return skc.mkdm(
         d["matrix"],
         [py_alias(k) for k in d["objectives"]],
@@ -855,6 +1012,59 @@ def _num(x):
     return C.rat(x)
 
 
+def _labs(xs):
+    """labels with their TYPES (G.lab): a string is itself, the whole number 2019 is 'int:2019' -- not the string '2019'"""
+    return [str(G.lab(x)) for x in xs]
+
+
+def _canon(case):
+    """the case with every LABEL (of the matrix, of the label selectors of every link, of replacement members) in the
+    type-preserving text form of `_labs`: what the oracle and the model work on.  The identity on all-string labels."""
+    if case.get("kind") != "chain":
+        return case
+    d = case["dm"]
+    if _plain(d["alternatives"]) and _plain(d["criteria"]) and not case.get("mixed"):
+        return case
+
+    def sel(x):
+        if x is None:
+            return None
+        (k, v), = x.items()
+        if k == "one":
+            return {k: str(G.lab(v))}
+        if k == "many":
+            return {k: _labs(v)}
+        if k == "slice":
+            return {k: [None if e is None else str(G.lab(e)) for e in v]}
+        return x
+
+    def link(st):
+        if st["kind"] == "getitem":
+            (k, v), = st["sel"].items()
+            if k == "col":
+                return {"kind": "getitem", "sel": {k: str(G.lab(v))}}
+            if k == "cols":
+                return {"kind": "getitem", "sel": {k: _labs(v)}}
+            if k == "rowsL":
+                return {"kind": "getitem", "sel": {k: [None if e is None else str(G.lab(e)) for e in v]}}
+            return st
+        if st["kind"] == "loc":
+            o = {"kind": "loc", "rows": sel(st["rows"])}
+            if st.get("cols") is not None:
+                o["cols"] = sel(st["cols"])
+            return o
+        return st
+
+    out = dict(case)
+    out["dm"] = dict(d, alternatives=_labs(d["alternatives"]), criteria=_labs(d["criteria"]))
+    out["chain"] = [link(st) for st in case["chain"]]
+    if case.get("side"):
+        out["side"] = [dict(ev, then=[[link(st) for st in b] for b in ev["then"]],
+                            copies=[{k: (_labs(v) if k in ("alternatives", "criteria") else v) for k, v in r.items()} for r in ev["copies"]])
+                       for ev in case["side"]]
+    return out
+
+
 def snapshot(dm):
     """the six parts + the derived views of a DecisionMatrix (exact numbers)"""
     from skcriteria import Objective
@@ -864,17 +1074,17 @@ def snapshot(dm):
     cols = [mtx.iloc[:, j].tolist() for j in range(n_c)]
     n_a = len(dm.alternatives)
     o = {
-        "alts": [str(a) for a in dm.alternatives],
-        "crits": [str(c) for c in dm.criteria],
+        "alts": _labs(dm.alternatives),
+        "crits": _labs(dm.criteria),
         "objs": [("max" if x is Objective.MAX else "min" if x is Objective.MIN else repr(x)) for x in dm.objectives],
         "wts": [_num(w) for w in dm.weights],
         "dts": [_dt(t) for t in dm.dtypes],
         "cells": [[_num(cols[j][i]) for j in range(n_c)] for i in range(n_a)],
-        "matrix_index": [str(a) for a in mtx.index],
-        "matrix_columns": [str(c) for c in mtx.columns],
-        "objs_index": [str(c) for c in dm.objectives.index],
-        "wts_index": [str(c) for c in dm.weights.index],
-        "dts_index": [str(c) for c in dm.dtypes.index],
+        "matrix_index": _labs(mtx.index),
+        "matrix_columns": _labs(mtx.columns),
+        "objs_index": _labs(dm.objectives.index),
+        "wts_index": _labs(dm.weights.index),
+        "dts_index": _labs(dm.dtypes.index),
     }
     d = {}
     try:
@@ -884,8 +1094,11 @@ def snapshot(dm):
         d["shape"] = [int(s) for s in dm.shape]
         d["len"] = len(dm)
         df = dm.to_dataframe()
+        # (the index of to_dataframe() is "objectives", "weights" and the alternatives stacked by numpy into ONE array: it is
+        # a rendering, compared as text; the alternatives themselves are compared with their types everywhere else)
         d["df_index"] = [str(x) for x in df.index]
-        d["df_columns"] = [str(x) for x in df.columns]
+        d["alts_text"] = [str(a) for a in dm.alternatives]
+        d["df_columns"] = _labs(df.columns)
         vals = df.to_numpy().tolist()
         d["df_objs"] = [("max" if x is Objective.MAX else "min" if x is Objective.MIN else repr(x)) for x in vals[0]] if len(vals) > 0 else None
         d["df_wts"] = [_num(x) for x in vals[1]] if len(vals) > 1 else None
@@ -1007,6 +1220,7 @@ def model_dm(d):
 def requests(case, obs):
     if case["kind"] == "alias":
         return [{"op": "alias", "key": case["key"]}]
+    case = _canon(case)
     reqs = [{"op": "sel", "dm": model_dm(case["dm"]), "chain": case["chain"], "version": case.get("version", "fixed")}]
     for ev in case.get("side", []):
         # a branch derived from the object after `at` links is, for the model, the chain up to there followed by the branch
@@ -1059,7 +1273,7 @@ def derived_mismatch(s):
         return "shape"
     if d["len"] != n_a:
         return "len"
-    if d["df_index"] != ["objectives", "weights"] + s["alts"] or d["df_columns"] != s["crits"]:
+    if d["df_index"] != ["objectives", "weights"] + d.get("alts_text", s["alts"]) or d["df_columns"] != s["crits"]:
         return "to_dataframe labels"
     if d["df_objs"] != s["objs"]:
         return "to_dataframe objectives row"
@@ -1125,6 +1339,7 @@ def judge(case, obs, replies):
             corr(f"from_alias({case['key']}): model vs implementation", model, obs)
         return out
 
+    case = _canon(case)
     src = case["dm"]
     # construction: from_mcda_data places every part positionally
     init = obs["init"]
@@ -1270,7 +1485,7 @@ def corr_links(msteps, osteps, steps, corr, prefix=""):
 def nontrivial(case, obs):
     if case["kind"] == "alias":
         return True
-    src = case["dm"]
+    src = _canon(case)["dm"]
     for o in obs["steps"]:
         if "dm" in o and (o["dm"]["alts"] != src["alternatives"] or o["dm"]["crits"] != src["criteria"]):
             return True
@@ -1281,7 +1496,17 @@ def nontrivial(case, obs):
 def tags(case, obs):
     if case["kind"] == "alias":
         return ["alias", "alias:" + next(iter(case["key"]))]
-    t = ["chain", "len=%d" % len(case["chain"]), "shape=%dx%d" % (len(case["dm"]["alternatives"]), len(case["dm"]["criteria"]))]
+    if case.get("mixed"):
+        d = case["dm"]
+        extra = ["mixed-labels", "mixed-labels:build=" + str(d.get("build")),
+                 "mixed-labels:alts=" + ("both" if _is_mixed(d["alternatives"]) else "str" if _plain(d["alternatives"]) else "int"),
+                 "mixed-labels:crits=" + ("both" if _is_mixed(d["criteria"]) else "str" if _plain(d["criteria"]) else "int")]
+        if any(isinstance(x, str) and x.isdigit() for x in d["alternatives"] + d["criteria"]):
+            extra.append("mixed-labels:string-spelled-like-a-number")
+    else:
+        extra = []
+    case = _canon(case)
+    t = extra + ["chain", "len=%d" % len(case["chain"]), "shape=%dx%d" % (len(case["dm"]["alternatives"]), len(case["dm"]["criteria"]))]
     if case.get("ex"):
         t.append("exhaustive-3x3")
     for ev, eo in zip(case.get("side", []), obs.get("side", [])):
